@@ -82,6 +82,7 @@ def pySem (f : String) : Option Sem :=
   else if f = "power" then some .pow
   else if f = "log" then some (.opaque "ln")
   else if f = "log10" then some (.opaque "log10")
+  else if f = "log2" then some (.opaque "log2")
   else if f ∈ ["sqrt", "exp", "sin", "cos", "tan", "arcsin", "arccos", "arctan", "sinh", "cosh", "tanh",
                "arcsinh", "arccosh", "arctanh"] then some (.opaque f)
   else none
@@ -217,7 +218,7 @@ def mathSem : MType → Nat → Option Sem
 def mathFn (I : Interp) (t : MType) (xs : List Rat) : Option Rat :=
   match t, xs with
   | .fnLog, [a] => I "log10" [a]
-  | .fnLog, [b, a] => if b = 10 then I "log10" [a] else I "log" [b, a]
+  | .fnLog, [b, a] => if b = 10 then I "log10" [a] else if b = 2 then I "log2" [a] else I "log" [b, a]
   | .fnRoot, [a] => I "sqrt" [a]
   | .fnRoot, [d, a] => if d = 2 then I "sqrt" [a] else I "root" [d, a]
   | t, xs =>
